@@ -68,7 +68,7 @@ def work_item(args):
         else:
             mod = importlib.import_module('props.' + prop_id)
             lemma = dict(mod.LEMMAS)[name]
-            results = prove.explore(world, lambda ctx: prove.run_lemma(ctx, lemma))
+            results = prove.explore(world, lambda ctx: prove.run_lemma(ctx, lemma, name))
         out['paths'] = len(results)
         seen = set()
         for pr in results:
